@@ -243,6 +243,40 @@ Proof.
 Qed.
 Print Assumptions C02_block_reaches_cache_atomically_refuted.
 
+(* ---- a flush that FAILS (Node/BlockCache.v, section FailFlush) ----
+   MemCachedStore.persist puts the batch it could not write back UNDER what was pushed into the cache meanwhile, for
+   both maps.  With that merge a history with failing flushes (flushes serialised: [fwf]) hands the database EXACTLY the
+   batches - keys and values - of the same history with the failing flushes left out ([erase]); so every theorem about
+   batches of C02 speaks about such histories too (the harness compares the real batches of kind "failflush" with the
+   model run in which a failed flush is no operation), and every durable state after it is block-aligned. *)
+Theorem C02_failed_flush_transparent :
+  forall (St Rt : Type) (evs : list (@fev St Rt)) cache,
+    fwf false evs = true -> femit merge_good None cache evs = emit cache (erase evs).
+Proof. exact (@failed_flush_transparent). Qed.
+Print Assumptions C02_failed_flush_transparent.
+
+Theorem C02_failed_flush_aligned :
+  forall (St Rt : Type) (evs : list (@fev St Rt)),
+    Forall fpush_ok evs -> fwf false evs = true -> Forall aligned (femit merge_good None [] evs).
+Proof. exact (@failed_flush_aligned). Qed.
+Print Assumptions C02_failed_flush_aligned.
+
+(* refuted for the merge that lets the OLDER value win in the storage-item map only (block 1 pushed, a flush begins,
+   block 2 pushed while it hangs, it fails, the next flush succeeds): one batch, block-aligned key by key, tip pointer 2,
+   state root 2 - and the contract storage of block 1; the database is a node at no height.  The same for a failed batch
+   that is dropped.  With the right merge: tip 2, root 2, storage of block 2. *)
+Theorem C02_failed_flush_wrong_merge_refuted :
+  fwf false wfail = true /\
+  (get (wdb merge_good) KCurBlock = Some (VNum 2) /\ get (wdb merge_good) (KRoot 2) = Some (VRoot 2) /\
+   get (wdb merge_good) (KState false) = Some (VSt 2)) /\
+  (map alignedb (femit merge_stor_wrong None [] wfail) = [true] /\
+   get (wdb merge_stor_wrong) KCurBlock = Some (VNum 2) /\ get (wdb merge_stor_wrong) (KRoot 2) = Some (VRoot 2) /\
+   get (wdb merge_stor_wrong) (KState false) = Some (VSt 1)) /\
+  (forall p h hh, ~ Inv (fun _ i => i) (fun s => s) 0 (fun _ => 1) 2000 (wdb merge_stor_wrong) p h hh) /\
+  (forall p h hh, ~ Inv (fun _ i => i) (fun s => s) 0 (fun _ => 1) 2000 (wdb merge_dropped) p h hh).
+Proof. exact failed_flush_wrong_merge_refuted. Qed.
+Print Assumptions C02_failed_flush_wrong_merge_refuted.
+
 (* ---- ONE change set inside the persistent backend (Node/Backend.v) ---- *)
 
 (* an atomic backend: its durable states are exactly the batch prefixes of Crash.v, and the only durable state of a
